@@ -419,7 +419,7 @@ func scenarios(o *h.Opts, rnd *h.Rand) []*scen {
 	// ---- several clients at once: handlers rely on being run one at a time
 	add("concurrent-clients", srvx.ChildSpec{}, func(s *scen, e *srvx.Episode) {
 		var wg sync.WaitGroup
-		for c := 0; c < 4; c++ {
+		for c := 0; c < 8; c++ {
 			wg.Add(1)
 			go func(c int) {
 				defer wg.Done()
@@ -428,19 +428,34 @@ func scenarios(o *h.Opts, rnd *h.Rand) []*scen {
 					return
 				}
 				defer ch.Close()
-				for i := 0; i < 150; i++ {
+				// requests are pipelined (not one at a time per client) so that a server which handles
+				// them concurrently really has several in flight on the same node
+				rc, err := srvx.OpenRawNone(context.Background(), e.Child.URL)
+				if err != nil {
+					return
+				}
+				defer rc.Close()
+				go func() { // keep reading so that the responses do not pile up
+					for {
+						rc.Conn.SetReadDeadline(time.Now().Add(10 * time.Second))
+						if _, err := rc.Conn.Receive(); err != nil {
+							return
+						}
+					}
+				}()
+				for i := 0; i < 400; i++ {
 					if e.Child.Exited() {
 						return
 					}
 					dv := &ua.DataValue{EncodingMask: ua.DataValueValue, Value: ua.MustVariant(ua.NewLocalizedText(fmt.Sprintf("c%d-%d", c, i)))}
-					ch.Do(srvx.WriteAttrReq(srvx.TestBigVar(), ua.AttributeID(20+c), dv), nil, 5*time.Second)
-					ch.Do(srvx.ReadReq(srvx.TestBigVar(), ua.AttributeIDDescription), nil, 5*time.Second)
-					ch.Do(srvx.BrowseReq(srvx.TestFolder(), ua.NewNumericNodeID(0, 0), true, ua.BrowseDirectionBoth), nil, 5*time.Second)
+					rc.Send(srvx.WriteAttrReq(srvx.TestBigVar(), ua.AttributeID(20+c+i%40), dv), nil, 5*time.Second)
+					rc.Send(srvx.ReadReq(srvx.TestBigVar(), ua.AttributeIDDescription), nil, 5*time.Second)
 				}
+				ch.Do(srvx.BrowseReq(srvx.TestFolder(), ua.NewNumericNodeID(0, 0), true, ua.BrowseDirectionBoth), nil, 10*time.Second)
 			}(c)
 		}
 		wg.Wait()
-		s.oracleOnly(e, "4 clients x 150 x (Write attribute, Read, Browse) concurrently", srvx.Result{Class: "done"})
+		s.oracleOnly(e, "8 clients x 400 pipelined (Write attribute, Read) on one node", srvx.Result{Class: "done"})
 	})
 
 	// ---- channel level
